@@ -104,6 +104,68 @@ fn aead_alter_case(rep: &Report, key: &[u8; 32], nonce: &[u8; 12], aad: &[u8], p
     try_open("ct-extended", 0, key, nonce, aad, &c);
 }
 
+/// Every tag that differs from the authentic one in exactly two bits (8128 of them), every exchange of two tag bytes, every
+/// rotation of the tag and its reversal: an opener that folds, sums or reorders tag bytes before comparing accepts some of
+/// these although it refuses every single-bit change. `open` is the subject's opener for (key, nonce/counter, aad).
+pub fn tag_variants(tag: &[u8; 16]) -> Vec<(String, [u8; 16])> {
+    let mut v: Vec<(String, [u8; 16])> = vec![];
+    for a in 0..128usize {
+        for b in a + 1..128 {
+            let mut t = *tag;
+            t[a / 8] ^= 1 << (a % 8);
+            t[b / 8] ^= 1 << (b % 8);
+            v.push((format!("tag bits {} and {} flipped", a, b), t));
+        }
+    }
+    for i in 0..16usize {
+        for j in i + 1..16 {
+            let mut t = *tag;
+            t.swap(i, j);
+            v.push((format!("tag bytes {} and {} exchanged", i, j), t));
+            for m in [0xffu8, 0x5a] {
+                let mut t = *tag;
+                t[i] ^= m;
+                t[j] ^= m;
+                v.push((format!("tag bytes {} and {} both xor {:#x}", i, j, m), t));
+            }
+        }
+    }
+    for k in 1..16usize {
+        let mut t = *tag;
+        t.rotate_left(k);
+        v.push((format!("tag rotated by {} bytes", k), t));
+    }
+    let mut t = *tag;
+    t.reverse();
+    v.push(("tag reversed".into(), t));
+    v.retain(|(_, t)| t != tag);
+    v
+}
+
+fn tag_variant_case(rep: &Report, which: &str, key: &[u8; 32], ctr: u64, aad: &[u8], pt: &[u8]) {
+    let nonce = r::noise_nonce(ctr);
+    let ct = r::aead_seal(key, &nonce, aad, pt);
+    let tag: [u8; 16] = ct[pt.len()..].try_into().unwrap();
+    for (what, t) in tag_variants(&tag) {
+        rep.eval(1);
+        let mut c = ct.clone();
+        c[pt.len()..].copy_from_slice(&t);
+        let res = if which == "ietf" { guarded(|| kc::chapoly_decrypt_ietf(key, &nonce, &c, aad).is_ok()) } else { guarded(|| kc::verif_chapoly_decrypt_noise(key, ctr, aad, &c).is_ok()) };
+        let case = json!({"kind":"tag-variant","which":which,"key":hx(key),"counter":ctr.to_string(),"aad":hx(aad),"pt":hx(pt),"what":what});
+        match res {
+            Ok(false) => {}
+            Ok(true) => {
+                rep.violation("aead-accepts-altered-tag", case, format!("{} open accepts a ciphertext whose {} (|pt|={}, |aad|={})", which, what, pt.len(), aad.len()));
+                return;
+            }
+            Err(p) => {
+                rep.violation("aead-open-panic", case, format!("open panicked with {}: {}", what, p));
+                return;
+            }
+        }
+    }
+}
+
 fn short_case(rep: &Report, key: &[u8; 32], nonce: &[u8; 12], len: usize, fill: u8) {
     rep.eval(1);
     let ct = vec![fill; len];
@@ -198,6 +260,7 @@ pub fn run(rep: &Report) {
     let seed = rep.seed;
     rep.set_rule("E-GRID: every (primitive, input shape) point of the stated grids is evaluated once against OpenSSL; a case is non-trivial when at least one output byte or an accept/reject decision is compared; distinct = distinct (primitive, shape, value-set) tuples");
     rep.rule_add("one-byte neighbours of the small-order points; HKDF length x fill grid.");
+    rep.rule_add("Tags at Hamming distance two (all 8128), exchanged / equally masked byte pairs, rotations and reversal, both AEAD openers.");
     rep.assume("data values (keys, nonces, message bytes) come from fixed seed-derived alphabets; the arithmetic is orion's and is exercised over the shape grid only");
     rep.assume("OpenSSL 3 libcrypto is the reference for RFC 8439/7748/2104/FIPS 180-4; HKDF reference is RFC 5869 built on OpenSSL HMAC");
     let kn: Vec<([u8; 32], [u8; 12])> = (0..3)
@@ -242,6 +305,21 @@ pub fn run(rep: &Report) {
         }
     });
     rep.sample(json!({"kind":"aead-alter","what":"every single bit of ciphertext, tag, nonce, key, aad","pt_lens":alt_lens}));
+
+    // (b2) tags of Hamming distance two, exchanged / paired / rotated tag bytes, both openers
+    {
+        let mut tj = vec![];
+        for which in ["ietf", "noise"] {
+            for (l, aadl) in rep.tier.pick(vec![(0usize, 0usize), (32, 4), (65, 17)], vec![(0, 0), (1, 0), (32, 4), (48, 4), (65, 17), (1000, 12)]) {
+                tj.push((which, l, aadl));
+            }
+        }
+        tj.par_iter().for_each(|&(which, l, aadl)| {
+            tag_variant_case(rep, which, &kn[0].0, if which == "ietf" { 0 } else { 5 }, &derive(seed, "c19-aad", aadl), &plaintext(seed ^ 0x7a9, l));
+            rep.nontrivial(format!("tag-variants-{}-{}-{}", which, l, aadl).as_bytes());
+        });
+        rep.extra("tag_variants_per_case", json!(tag_variants(&[7u8; 16]).len().max(8128)));
+    }
 
     // (c) inputs shorter than a tag
     for len in 0..16usize {
@@ -472,6 +550,7 @@ pub fn replay(rep: &Report, case: &Value) {
         "aead-alter" => aead_alter_case(rep, &a32(g("key")), &a12(g("nonce")), &g("aad"), &g("pt")),
         "aead-short" => short_case(rep, &a32(g("key")), &a12(g("nonce")), case["len"].as_u64().unwrap() as usize, case["fill"].as_u64().unwrap() as u8),
         "x25519" => x25519_case(rep, case["k_name"].as_str().unwrap_or("k"), &a32(g("scalar")), case["u_name"].as_str().unwrap_or("u"), &a32(g("u"))),
+        "tag-variant" => tag_variant_case(rep, case["which"].as_str().unwrap(), &a32(g("key")), case["counter"].as_str().unwrap().parse().unwrap(), &g("aad"), &g("pt")),
         "noise-aead" => noise_case(rep, &a32(g("key")), case["counter"].as_str().unwrap().parse().unwrap(), &g("ad"), &g("pt")),
         "hkdf" => {
             let l = case["len"].as_u64().unwrap() as usize;
